@@ -726,4 +726,53 @@ def item_other_sites(repo, out):
         raise TranslateError('_connect_read_tuple: unexpected body')
 
 
-ITEMS = [item_glitches, item_raise_for_status, item_store_init, item_request, item_jwt, item_streaming, item_store_state, item_jwt_flow, item_other_sites]
+def item_urls(repo, out):
+    """Which object a request asks for: make_url, _normalise_bucket_name, _CHUNK_EXTENSION."""
+    tree = _parse(repo, REL)
+    nb = _body(_func(tree, '_normalise_bucket_name', REL))
+    src = [ast.unparse(x) for x in nb]
+    if len(nb) != 5 or src[0] != 'split_url = urllib.parse.urlsplit(url)' or \
+            src[4] != 'return split_url._replace(path=path).geturl()':
+        raise TranslateError('_normalise_bucket_name: unexpected statements %s' % src)
+    # path_components = split_url.path.lstrip(SEP).split(SEP, 1)
+    v = nb[1].value if isinstance(nb[1], ast.Assign) else None
+    ok = (v is not None and ast.unparse(nb[1].targets[0]) == 'path_components' and isinstance(v, ast.Call)
+          and isinstance(v.func, ast.Attribute) and v.func.attr == 'split' and len(v.args) == 2 and not v.keywords
+          and isinstance(v.func.value, ast.Call) and isinstance(v.func.value.func, ast.Attribute)
+          and v.func.value.func.attr == 'lstrip' and ast.unparse(v.func.value.func.value) == 'split_url.path'
+          and len(v.func.value.args) == 1)
+    if not ok:
+        raise TranslateError('_normalise_bucket_name: path is not split as path.lstrip(sep).split(sep, 1)')
+    sep, maxsplit, strip = (_const_eval(v.args[0], {}, 'nb'), _const_eval(v.args[1], {}, 'nb'),
+                            _const_eval(v.func.value.args[0], {}, 'nb'))
+    if maxsplit != 1 or strip != sep or not isinstance(sep, str) or len(sep) != 1:
+        raise TranslateError('_normalise_bucket_name: unexpected separator / maxsplit')
+    # path_components[0] = path_components[0].replace(FROM, TO)
+    r = nb[2]
+    ok = (isinstance(r, ast.Assign) and ast.unparse(r.targets[0]) == 'path_components[0]' and isinstance(r.value, ast.Call)
+          and ast.unparse(r.value.func) == 'path_components[0].replace' and len(r.value.args) == 2 and not r.value.keywords)
+    if not ok:
+        raise TranslateError('_normalise_bucket_name: only the first path component may be rewritten, by one replace')
+    frm, to = _const_eval(r.value.args[0], {}, 'nb'), _const_eval(r.value.args[1], {}, 'nb')
+    if not (isinstance(frm, str) and isinstance(to, str) and len(frm) == 1 and len(to) == 1):
+        raise TranslateError('_normalise_bucket_name: replace arguments are not single characters')
+    if src[3] != "path = %r + %r.join(path_components)" % (sep, sep):
+        raise TranslateError('_normalise_bucket_name: path is not put together again with the separator: %s' % src[3])
+    out.append('Definition s3_bucket_from : Z := %s.' % coq_Z(ord(frm)))
+    out.append('Definition s3_bucket_to : Z := %s.' % coq_Z(ord(to)))
+    out.append('Definition s3_path_sep : Z := %s.' % coq_Z(ord(sep)))
+    ext = _const_eval(_module_assign(tree, '_CHUNK_EXTENSION', REL), {}, '_CHUNK_EXTENSION')
+    if not isinstance(ext, str):
+        raise TranslateError('_CHUNK_EXTENSION is not a string')
+    out.append('Definition s3_chunk_extension : string := %s.' % coq_string(ext))
+    cls = _class(tree, 'S3ChunkStore', REL)
+    mu = [ast.unparse(x) for x in _body(_func(cls, 'make_url', REL))]
+    if mu != ['relative_path = to_str(urllib.parse.quote(relative_path))',
+              'url = urllib.parse.urljoin(self._url, relative_path)', 'return _normalise_bucket_name(url)']:
+        raise TranslateError('make_url: unexpected statements %s' % mu)
+    for fn in ('get_chunk', 'put_chunk'):
+        if 'url = self.make_url(chunk_name + _CHUNK_EXTENSION)' not in [ast.unparse(x) for x in _func(cls, fn, REL).body]:
+            raise TranslateError('%s: url is not make_url(chunk_name + _CHUNK_EXTENSION)' % fn)
+
+
+ITEMS = [item_glitches, item_raise_for_status, item_store_init, item_request, item_jwt, item_streaming, item_store_state, item_jwt_flow, item_other_sites, item_urls]
